@@ -153,13 +153,16 @@ type EnumVal struct {
 }
 
 type TypeRec struct {
-	Kind    string     `json:"kind"`
-	Fields  []FieldDef `json:"fields"`
-	Ifaces  []string   `json:"ifaces"`
-	Members []string   `json:"members"`
-	Values  []EnumVal  `json:"values"`
-	Inputs  []ArgDef   `json:"inputs"`
-	Defrt   string     `json:"defrt"`
+	Kind     string     `json:"kind"`
+	Fields   []FieldDef `json:"fields"`
+	Ifaces   []string   `json:"ifaces"`
+	Members  []string   `json:"members"`
+	Values   []EnumVal  `json:"values"`
+	Inputs   []ArgDef   `json:"inputs"`
+	Defrt    string     `json:"defrt"`
+	IsTypeOf bool       `json:"isTypeOf"`
+	NoRT     bool       `json:"noRT"`
+	Plain    bool       `json:"plain"`
 }
 
 type Schema struct {
